@@ -121,12 +121,16 @@ class Subscription(OneShotTask, DebugContents):
         # break the object reference
         self.obj_ref = None
 
-    def renew_subscription(self, lifetime):
+    def renew_subscription(self, confirmed, lifetime):
         if _debug: Subscription._debug("renew_subscription")
 
         # suspend iff scheduled
         if self.isScheduled:
             self.suspend_task()
+
+        # a renewal replaces the parameters of the subscription
+        self.confirmed = confirmed
+        self.lifetime = lifetime
 
         # reschedule the task if its not infinite
         if lifetime != 0:
@@ -731,7 +735,7 @@ class ChangeOfValueServices(Capability):
                 self.cancel_subscription(cov)
             else:
                 if _debug: ChangeOfValueServices._debug("    - renew the subscription")
-                cov.renew_subscription(lifetime)
+                cov.renew_subscription(confirmed, lifetime)
         else:
             if cancel_subscription:
                 if _debug: ChangeOfValueServices._debug("    - cancel a subscription that doesn't exist")
@@ -810,7 +814,7 @@ class ChangeOfValueServices(Capability):
                 self.cancel_subscription(cov)
             else:
                 if _debug: ChangeOfValueServices._debug("    - renew the subscription")
-                cov.renew_subscription(lifetime)
+                cov.renew_subscription(confirmed, lifetime)
         else:
             if cancel_subscription:
                 if _debug: ChangeOfValueServices._debug("    - cancel a subscription that doesn't exist")
